@@ -1,4 +1,4 @@
-#!/usr/bin/env python3
+#!/venv/bin/python
 """Regenerate /verif/MANIFEST.json from the MANIFEST dict of every rule module."""
 import importlib
 import json
